@@ -356,7 +356,6 @@ func (e *Exec) deepCopy(v Value, seen map[*Value]*Value) Value {
 	return v
 }
 
-
 // cloner deep-copies a value graph (pointers, maps, slices, aggregates), keeping sharing.
 type cloner struct {
 	e *Exec
